@@ -130,7 +130,7 @@ pub fn j_views(ts: TimeScale, c: i128, leap: &LeapTable, out: &mut Local) {
     }
 }
 
-const CTORS: [&str; 9] = ["from_mjd_tai", "from_mjd_utc", "from_jde_tai", "from_jde_utc", "from_unix_seconds", "from_unix_milliseconds", "from_mjd_in_time_scale", "from_jde_in_time_scale", "from_unix_duration"];
+const CTORS: [&str; 12] = ["from_mjd_tai", "from_mjd_utc", "from_jde_tai", "from_jde_utc", "from_unix_seconds", "from_unix_milliseconds", "from_mjd_in_time_scale", "from_jde_in_time_scale", "from_unix_duration", "from_jde_et", "from_jde_tdb", "scale-specific-wrappers"];
 
 /// constructor -> same view returns the input to float precision
 pub fn j_ctor(k: usize, x: f64, out: &mut Local) {
@@ -166,18 +166,44 @@ pub fn j_ctor(k: usize, x: f64, out: &mut Local) {
                 let ts = SCALES[(x.to_bits() % 9) as usize];
                 let (zd, zt) = scales::gregorian_zero(ts);
                 let e = Epoch::from_mjd_in_time_scale(x, ts);
-                (e, e.duration.to_unit(Unit::Day) + (zd as f64 + zt as f64 / NS_DAY as f64) + 15_020.0, ts)
+                // read back exactly (the harness's own f64 additions would round at the magnitude of the constants)
+                (e, crate::oracle::ulp::ratio_to_f64(alpha(e.duration) + zd as i128 * NS_DAY + zt + MJD1900, NS_DAY), ts)
             }
             7 => {
                 let ts = SCALES[(x.to_bits() % 9) as usize];
                 let (zd, zt) = scales::gregorian_zero(ts);
                 let e = Epoch::from_jde_in_time_scale(x, ts);
-                (e, e.duration.to_unit(Unit::Day) + (zd as f64 + zt as f64 / NS_DAY as f64) + 2_415_020.5, ts)
+                (e, crate::oracle::ulp::ratio_to_f64(alpha(e.duration) + zd as i128 * NS_DAY + zt + JD1900, NS_DAY), ts)
             }
-            _ => {
+            8 => {
                 let d = x * Unit::Second;
                 let e = Epoch::from_unix_duration(d);
                 (e, e.to_unix_seconds(), TimeScale::UTC)
+            }
+            9 => {
+                // JD in ET: read back through the ET view (the label of the result is not pinned)
+                let e = Epoch::from_jde_et(x);
+                (e, e.to_jde_et_days(), e.time_scale)
+            }
+            10 => {
+                let e = Epoch::from_jde_tdb(x);
+                (e, e.to_jde_tdb_days(), e.time_scale)
+            }
+            _ => {
+                // the GNSS-specific constructors are the generic one with the scale filled in: any difference reads
+                // back as NaN (never within tolerance)
+                let pairs = [
+                    (Epoch::from_mjd_gpst(x), Epoch::from_mjd_in_time_scale(x, TimeScale::GPST)),
+                    (Epoch::from_mjd_qzsst(x), Epoch::from_mjd_in_time_scale(x, TimeScale::QZSST)),
+                    (Epoch::from_mjd_gst(x), Epoch::from_mjd_in_time_scale(x, TimeScale::GST)),
+                    (Epoch::from_mjd_bdt(x), Epoch::from_mjd_in_time_scale(x, TimeScale::BDT)),
+                    (Epoch::from_jde_gpst(x + 2_400_000.5), Epoch::from_jde_in_time_scale(x + 2_400_000.5, TimeScale::GPST)),
+                    (Epoch::from_jde_qzsst(x + 2_400_000.5), Epoch::from_jde_in_time_scale(x + 2_400_000.5, TimeScale::QZSST)),
+                    (Epoch::from_jde_gst(x + 2_400_000.5), Epoch::from_jde_in_time_scale(x + 2_400_000.5, TimeScale::GST)),
+                    (Epoch::from_jde_bdt(x + 2_400_000.5), Epoch::from_jde_in_time_scale(x + 2_400_000.5, TimeScale::BDT)),
+                ];
+                let same = pairs.iter().all(|(a, b)| a.time_scale == b.time_scale && a.duration.to_parts() == b.duration.to_parts());
+                (pairs[0].0, if same { x } else { f64::NAN }, TimeScale::GPST)
             }
         }
     });
@@ -194,16 +220,10 @@ pub fn j_ctor(k: usize, x: f64, out: &mut Local) {
                 out.viol("c17.ctor", format!("{}-scale-wrong", CTORS[k]), args, scale_name(want_ts).into(), scale_name(e.time_scale).into());
                 return;
             }
-            // "float precision": of the value, of one second's worth, or of the value's distance from the view's own
-            // 1900 anchor (the constructors compute `value - anchor` in f64, which rounds at that magnitude; the statement
-            // does not ask for more than double arithmetic can give)
-            let anchor = match k {
-                0 | 1 | 6 => 15_020.0,
-                2 | 3 | 7 => 2_415_020.5,
-                4 | 8 => -2_208_988_800.0,
-                _ => -2_208_988_800_000.0,
-            };
-            let u = crate::oracle::ulp::ulp_of(x.abs().max(one_second).max((x - anchor).abs()));
+            // "float precision": of the value, or of one second's worth for values closer to zero than that. (An earlier
+            // version also allowed the rounding of `value - anchor` in f64, on the belief that no double implementation
+            // could avoid it; splitting the input into whole days and a fraction avoids it: DESIGN.md §9.)
+            let u = crate::oracle::ulp::ulp_of(x.abs().max(one_second));
             let tol = ULPS as f64 * u + 2.0 / unit_ns as f64;
             let diff = (back - x).abs();
             if diff <= tol {
@@ -226,16 +246,16 @@ pub fn j_ctor(k: usize, x: f64, out: &mut Local) {
 /// JD/MJD/UNIX inputs within +-10 000 years of 1900
 pub fn ctor_inputs(k: usize, fl: &[f64]) -> Vec<f64> {
     let (lo, hi) = match k {
-        0 | 1 | 6 => (15_020.0 - 3_652_500.0, 15_020.0 + 3_652_500.0),
-        2 | 3 | 7 => (2_415_020.5 - 3_652_500.0, 2_415_020.5 + 3_652_500.0),
+        0 | 1 | 6 | 11 => (15_020.0 - 3_652_500.0, 15_020.0 + 3_652_500.0),
+        2 | 3 | 7 | 9 | 10 => (2_415_020.5 - 3_652_500.0, 2_415_020.5 + 3_652_500.0),
         4 | 8 => (-3.2e11, 3.2e11),
         _ => (-3.2e14, 3.2e14),
     };
     let mut v: Vec<f64> = fl.iter().copied().filter(|x| *x >= lo && *x <= hi).collect();
     // values round the view's own anchors
     let anchors: Vec<f64> = match k {
-        0 | 1 | 6 => vec![15_020.0, 51_544.5, 40_587.0, 0.0, 60_000.0, 41_317.0, 57_754.0],
-        2 | 3 | 7 => vec![2_415_020.5, 2_451_545.0, 2_440_587.5, 2_400_000.5, 0.0, 2_460_000.25],
+        0 | 1 | 6 | 11 => vec![15_020.0, 51_544.5, 40_587.0, 0.0, 60_000.0, 41_317.0, 57_754.0],
+        2 | 3 | 7 | 9 | 10 => vec![2_415_020.5, 2_451_545.0, 2_440_587.5, 2_400_000.5, 0.0, 2_460_000.25, 2_451_636.25, 2_451_727.5, 2_451_818.75],
         4 | 8 => vec![0.0, 1.0e9, 1_483_228_800.0, 63_072_000.0, -2_208_988_800.0, 2.0e9],
         _ => vec![0.0, 1.0e12, 1_483_228_800_000.0],
     };
@@ -276,7 +296,7 @@ pub fn run(rep: &mut Report) {
         sweep(rep, &format!("c17.views[{}]", scale_name(ts)), el.len() as u64, |i, out| j_views(ts, el[i as usize], &leap, out));
     }
     let fl = lattice::fl(!q);
-    for k in 0..9 {
+    for k in 0..12 {
         let xs = ctor_inputs(k, &fl);
         sweep(rep, &format!("c17.ctor[{}]", CTORS[k]), xs.len() as u64, |i, out| j_ctor(k, xs[i as usize], out));
     }
